@@ -139,7 +139,8 @@ theorem pushWithExpand_spec (r : Ring) (v : Int) (hi : r.Inv) :
     subst hok
     simp only [if_true] at hc2
     refine ⟨r2, ?_, hi2, by rw [hc2, hc1], by simp only [hlenc, if_true]; rw [hcap2, hcap1]⟩
-    simp only [Ring.pushWithExpand, hf, if_true, hr1, Option.map_some, hr2]
+    have hc0 : ¬ (r.cap = 0) := by omega
+    simp only [Ring.pushWithExpand, hf, if_true, hr1, Option.map_some, hr2, if_neg hc0]
   · have hlenc : ¬ ((r.content.length : Int) = r.cap) := fun h => hf (hfull.mpr h)
     obtain ⟨r2, ok2, hr2, hi2, hcap2, hok2, hc2⟩ := push_spec r v hi
     have hlt : (r.content.length : Int) < r.cap := by
@@ -157,6 +158,7 @@ theorem pushWithExpand_spec (r : Ring) (v : Int) (hi : r.Inv) :
     subst hok
     simp only [if_true] at hc2
     refine ⟨r2, ?_, hi2, hc2, by simp only [hlenc, if_false]; exact hcap2⟩
-    simp only [Ring.pushWithExpand, hf, Bool.false_eq_true, if_false, hr2, Option.map_some]
+    have hc0 : ¬ (r.cap = 0) := by omega
+    simp only [Ring.pushWithExpand, hf, Bool.false_eq_true, if_false, hr2, Option.map_some, if_neg hc0]
 
 end Golib.C10
